@@ -7,6 +7,7 @@ import (
 	"io"
 	"os"
 	"os/exec"
+	"strings"
 	"sync"
 	"testing"
 
@@ -109,7 +110,9 @@ func c17Record(col *collector, c c17Case, origin string, nodes, depth int) {
 		cl = append(cl, "custom-branch")
 	}
 	col.eval(nodes >= 3 && depth >= 2 || origin != "well-formed", hash64(string(c.Doc), fmt.Sprint(c.Branch, c.Mode, c.Exts)), cl...)
-	col.sample(func() any { return map[string]any{"doc": truncate(string(c.Doc), 200), "mode": c.Mode, "branch": c.Branch, "exts": c.Exts} })
+	col.sample(func() any {
+		return map[string]any{"doc": truncate(string(c.Doc), 200), "mode": c.Mode, "branch": c.Branch, "exts": c.Exts}
+	})
 }
 
 func branch4(b *model.Branch) *[4]string {
@@ -202,7 +205,8 @@ func TestC17Exhaustive(t *testing.T) {
 func TestC17Constants(t *testing.T) {
 	col := coll("C17", "constants")
 	col.Rule = "the fixed hostile inputs of C12 x {text, JSON, dry-run}"
-	for _, d := range c12Constants {
+	big := []string{strings.Repeat("- 0123456789012345678901234567\n", 2049), strings.Repeat("- r\n  - kkkkkkkkkkkkkkkkkkkkkkkkkkkkkkkkkkkkkkkk\n", 1700), "- a\n" + strings.Repeat("  - "+strings.Repeat("y", 100)+"\n", 700) + "- b\n"}
+	for _, d := range append(append([]string{}, c12Constants...), big...) {
 		for _, m := range []string{"text", "json", "dryrun"} {
 			c := c17Case{Doc: []byte(d), Mode: m}
 			c17Record(col, c, "constant", 0, 0)
